@@ -207,7 +207,7 @@ def _validate(ctx, n_per_entry, g, interp, importlib):
     mu0 = float(magpy.mu_0)
     for entry in g.ENTRIES:
         key, modname, fname, params, variants, ret = entry[:6]
-        if key in ("trimesh_inside", "trimesh_facet_inwards", "cylinder_segment_cases"):
+        if key in ("trimesh_inside", "trimesh_facet_inwards", "cylinder_segment_cases") or len(entry) > 6:
             continue          # results contain the opaque result of a modular call / integer case numbers
         mod = interp.module(modname)
         realf = getattr(importlib.import_module(modname), fname)
@@ -482,8 +482,7 @@ def diagnose(c, p, s, clause, region="generic"):
     try:
         if clause == "face-orientation":
             ext = float(np.ptp(np.array(c["verts"]), axis=0).max()) * s
-            if (ext < 1e-3 or ext > 10) and (active("trimesh_facet_inwards>") or active("trimesh_inside>")
-                                             or active("trimesh_lines_end>")):      # the 1e-5 offset of the check point is not small / not resolvable
+            if (ext < 1e-3 or ext > 10) and (active("trimesh_facet_inwards>") or active("trimesh_inwards_mask>")):      # the 1e-5 offset of the check point is not small / not resolvable
                 return clause, "is_facet_inwards:eps=1e-5"
             return clause, f"TriangularMesh:{c['kind']}:{size}"
         if cls in ("Triangle", "Tetrahedron", "TriangularMesh") and clause == "scale-law":
@@ -614,6 +613,7 @@ def check_mesh_status(ctx, scales):
             for kkey in st1:
                 if st.get(kkey) != st1[kkey]:
                     trig = "segments_intersect_facets:eps=1e-6" if kkey == "selfintersecting" and s < 1 \
+                        and (active("trimesh_selfintersect>") or active("trimesh_intersecting>")) \
                         else f"{kkey}:{name}:{scale_class(s)}"
                     ctx.impl_fail(f"mesh-status/{trig}",
                                   f"TriangularMesh status_{kkey} of the {name} mesh is {st1[kkey]} at scale 1 and "
@@ -690,6 +690,9 @@ def run(ctx):
     if ctx.tier == "thorough" and built:
         ctx.coqchk("MV.Props.C12")
     ctx.partial += ["C12_masks_scale_invariant_partial", "C12_core_degree_partial", "C12_call_arguments_partial"]
+    ctx.refuted += ["C12_lines_end_area_eps_refuted", "C12_lines_end_coincide_eps_refuted",
+                    "C12_cylinder_segment_margin_refuted", "C12_cylinder_segment_close_refuted",
+                    "C12_determine_cases_close_refuted", "C12_ray_start_refuted"]
 
     table = exclusion_table()
     active = run_guarded(ctx, lambda: active_exclusions(ctx, built), "C12 active exclusions") if ok else None
